@@ -404,3 +404,4 @@ MANIFEST["text"] += " Also: per-call setup (targets for this call's loss type, p
 MANIFEST["text"] += " R3 also: patch indices wrap per axis — a flat index reduced modulo the object area (rows·columns) wraps rows only and is reported."
 MANIFEST["text"] += ' R5: the sub-pixel remainder is resolved through subscripts, locals and property getters and must be position − torch.round(position).'
 MANIFEST["text"] += ' R8 is coupled with the slice_thicknesses setter (a conditional refresh in reconstruct is sound while the setter recomputes).'
+MANIFEST["text"] += ' R11 (coupled): a potential is converted to a transmission function exactly once on the forward → _get_obj_patches path (dtype-gated sites are idempotent; two type-gated sites are a violation).'
